@@ -82,6 +82,10 @@ def check_law(ctx, case):
         ctx.count("constructor_raised_skipped")
         return
     g = og.value
+    if case.get("decoy"):
+        # another generator of the same model with the same bloc / candidate names and other numbers is built (and, half
+        # of the time, used) between the construction and the use of the generator under test
+        ctx.count("decoy_generators_built" if bp.make_decoy(model, p, extra, use=case["decoy"] == "use") else "decoy_raised")
     if case.get("warmup"):
         # the same generator object has already answered another request when the judged one is made
         try:
@@ -384,6 +388,8 @@ def check_bt_tables(ctx, case):
         if not og.ok:
             continue
         g = og.value
+        if case.get("decoy"):
+            ctx.count("decoy_generators_built" if bp.make_decoy(model, p, None, use=case["decoy"] == "use") else "decoy_raised")
         r = rng.Rng("tap", seed=case["seed"])
         with r:
             o = observe(g.generate_profile, N, by_bloc=True)
@@ -834,6 +840,8 @@ def check_freq(ctx, case):
         model = {"slate_pl": "slate_PlackettLuce", "slate_bt": "slate_BradleyTerry", "slate_bt_mcmc": "slate_BradleyTerry",
                  "slate_bt_mcmc_lowcoh": "slate_BradleyTerry", "ac": "AlternatingCrossover", "cambridge": "CambridgeSampler"}[kind]
         g = bp.make(model, p)
+        bp.make_decoy(model, p, None, use=True)  # another generator with the same names is built and used in between
+        seed_all(case["seed"] + 1)
         mc = kind.startswith("slate_bt_mcmc")
         pp = g.generate_profile(N, deterministic=False) if mc else g.generate_profile(N)
         types, orders = {}, {"W": {}, "C": {}}
@@ -861,6 +869,8 @@ def check_freq(ctx, case):
     elif kind in ("name_bt", "name_bt_mcmc"):
         p = fixed_params("one_bloc3")
         g = bp.make("name_BradleyTerry", p)
+        bp.make_decoy("name_BradleyTerry", p, None, use=True)  # another generator with the same names is built and used in between
+        seed_all(case["seed"] + 1)
         pp = g.generate_profile_MCMC(N) if kind == "name_bt_mcmc" else g.generate_profile(N)
         exp, _ = c15.ref_combined(p, "W")
         law = {k: float(v) for k, v in c15.ref_name_bt(exp).items()}
@@ -899,6 +909,8 @@ def gen_law_case(rnd, i):
         case["entry"] = "mcmc"
     if rnd.random() < 0.25:
         case["warmup"] = rnd.choice([1, 2, 5])
+    if rnd.random() < 0.35:
+        case["decoy"] = rnd.choice(["build", "use"])
     return case
 
 
@@ -921,7 +933,8 @@ def run(ctx):
             ctx.guard("types", check_slate_types, ctx, {"kind": "types", "sizes": sizes, "cohesion": dict(zip(names, cohv))})
         if i % 8 == 1:
             p = bp.gen_params(rnd, nblocs=rnd.choice([1, 2, 2]), max_slate=2)
-            ctx.guard("bt", check_bt_tables, ctx, {"kind": "bt", "params": p, "N": rnd.choice([1, 4, 8]), "seed": rnd.randrange(10 ** 6)})
+            ctx.guard("bt", check_bt_tables, ctx, {"kind": "bt", "params": p, "N": rnd.choice([1, 4, 8]), "seed": rnd.randrange(10 ** 6),
+                                                         "decoy": rnd.choice([None, "build", "use"])})
         if i % 16 == 2:
             p = bp.gen_params(rnd, nblocs=rnd.choice([1, 2]), max_slate=2, extremes=rnd.random() < 0.3)
             ctx.guard("kernel_nbt", check_kernel_name_bt, ctx, {"kind": "kernel_nbt", "params": p})
